@@ -27,6 +27,9 @@ CHECKS = {
     "C05": "gen.c05",
     "C06": "gen.c06",
     "C07": "gen.c07",
+    "C08": "gen.c08",
+    "C09": "gen.c09",
+    "C10": "gen.c10",
     "C11": "gen.c11",
     "C15": "gen.c15",
     "C20": "gen.c20",
